@@ -135,14 +135,14 @@ def obligations(tier):
     quick = tier == 'quick'
     obs = []
     for fname in FILES:
-        N = 3 if quick else 4
+        N = 2 if quick else 3
         obs.append(Ob('insert1[%s]' % fname, ob_insert, dict(fname=fname, K=1, N=N),
                       must_reach=['DiffXReader._read_header'], path_timeout=20,
                       desc='real reader on the base file and on the file with one unknown option (symbolic key/value '
                            'of 1..%d bytes each) inserted into any header at any position' % N,
                       bounds={'inserted': 1, 'key_len': [1, N], 'value_len': [1, N], 'headers': len(FILES[fname])}))
     hs = [1, 8] if quick else [0, 1, 2, 4, 6, 8]
-    N2 = 2 if quick else 3
+    N2 = 1 if quick else 2
     obs.append(Ob('insert2[utf8]', ob_insert, dict(fname='utf8', K=2, N=N2, headers=hs),
                   must_reach=['DiffXReader._read_header'], path_timeout=20,
                   desc='two unknown options (symbolic keys/values of 1..%d bytes) at any two positions of header %s' % (N2, hs),
